@@ -30,6 +30,29 @@ def gen_plans(rng, n):
     return out
 
 
+def gen_readstorms(rng, n):
+    """several goroutines re-reading large blobs of equal size but different content, a writer among them:
+    a read must return the blob of ITS key (buffers shared between concurrent reads would show here)"""
+    out = []
+    for _ in range(n):
+        procs = rng.choice([3, 4, 4, 5])
+        pre = [{"op": "write", "k": 1, "c": "c1", "d": "L", "m": "m0"},
+               {"op": "write", "k": 2, "c": "c1", "d": "M", "m": "m0"},
+               {"op": "write", "k": 3, "c": "c1", "d": rng.choice(["a", "c"]), "m": "m0"}]
+        plan = []
+        for p in range(procs):
+            ops = []
+            for _i in range(rng.randint(10, 16)):
+                if p == 0 and rng.random() < 0.2:
+                    ops.append({"op": "write", "k": 3, "c": "c1", "d": rng.choice(["a", "c"]), "m": "m0"})
+                else:
+                    ops.append({"op": "read", "k": rng.choice([1, 2, 3]), "c": "c1", "d": "", "m": ""})
+            plan.append(ops)
+        out.append({"ev": "reset", "vttl": "", "procs": procs, "keys": [1, 2, 3], "cookies": ["c1"],
+                    "pre": pre, "plan": plan})
+    return out
+
+
 def nontrivial(lines):
     # at least two processes had overlapping operations on the same key, one of them a write or delete
     open_ops = {}
@@ -76,6 +99,8 @@ def run(ctx):
         else:
             with open(script, "w") as f:
                 for r in gen_plans(rng, n):
+                    f.write(json.dumps(r) + "\n")
+                for r in gen_readstorms(rng, n // 2):
                     f.write(json.dumps(r) + "\n")
         trace = ctx.drive(binp, ["--script", script, "--mode", mode], name=mode, timeout=2400)
         errp = os.path.join(ctx.out, mode + ".stderr")
